@@ -276,8 +276,9 @@ fn capabilities_detect(term: &mut UnixTerminal) -> Result<(), Error> {
         caps.depth = ColorDepth::TrueColor;
     }
 
-    // drain all pending events
-    term.drain().count();
+    // drain all pending events (errors must not be ignored, termination
+    // signal received at this point would be lost otherwise)
+    while term.poll(Some(Duration::new(0, 0)))?.is_some() {}
     // NOTE: using `write!` here instead of execute, to not accidentally use
     //       existing configuration from passed terminal.
 
@@ -356,7 +357,7 @@ fn capabilities_detect(term: &mut UnixTerminal) -> Result<(), Error> {
     }
 
     // drain terminal
-    term.drain().count();
+    while term.poll(Some(Duration::new(0, 0)))?.is_some() {}
 
     // color depth
     if let Some(depth) = env_cfg::<ColorDepth>("depth") {
